@@ -139,6 +139,59 @@ func initModels() {
 		x.e.note("errors.Is is an uninterpreted relation on error values")
 		return []Val{scalar(rt(cc, 0), "(errors_is "+a[0].Tag+" "+a[0].S+" "+a[1].Tag+" "+a[1].S+")")}
 	})
+	// net/http.Header as a string-keyed map of string slices; keys are canonicalised by an uninterpreted function.
+	canon := func(x *Exec, k string) string {
+		x.e.ufun("canon_header", "("+x.e.strSort()+") "+x.e.strSort())
+		x.e.note("http.Header keys: textproto.CanonicalMIMEHeaderKey is an uninterpreted idempotent function")
+		return "(canon_header " + k + ")"
+	}
+	hdrType := func(cc *ssa.CallCommon) types.Type { return cc.Args[0].Type() }
+	models["(net/http.Header).Set"] = &model{fn: func(x *Exec, p *Path, site ssa.Instruction, cc *ssa.CallCommon, a []Val) ([]Val, bool) {
+		e := x.e
+		mt := hdrType(cc)
+		et := mt.Underlying().(*types.Map).Elem().Underlying().(*types.Slice).Elem()
+		arr := e.alloc(p, "hdrval")
+		e.storeElem(p, arr, "0", et, a[2])
+		x.checkNonNil(p, a[0].S, "header map")
+		e.mapStore(p, mt, a[0].S, canon(x, a[1].S), Val{K: KSlice, T: mt.Underlying().(*types.Map).Elem(), S: arr, Off: "0", Len: "1"})
+		return nil, true
+	}}
+	models["(net/http.Header).Add"] = &model{fn: func(x *Exec, p *Path, site ssa.Instruction, cc *ssa.CallCommon, a []Val) ([]Val, bool) {
+		e := x.e
+		mt := hdrType(cc)
+		st := mt.Underlying().(*types.Map).Elem()
+		et := st.Underlying().(*types.Slice).Elem()
+		k := canon(x, a[1].S)
+		old, dom := e.mapLoad(p, nil, mt, a[0].S, k)
+		oldLen := ite(dom, old.Len, "0")
+		arr := e.alloc(p, "hdrval")
+		// copy of the old values followed by the new one
+		for _, lf := range e.leaves(et) {
+			key := elemKey(et, lf.Path)
+			srt := arrSort("Int", arrSort("Int", lf.Sort))
+			h := e.heapName(p, nil, key, srt)
+			na := e.fresh("hdradd", arrSort("Int", lf.Sort))
+			p.assume("(forall ((|q:i| Int)) (=> (and (>= |q:i| 0) (< |q:i| " + oldLen + ")) (= (select " + na + " |q:i|) (select (select " + h + " " + old.S + ") (+ " + old.Off + " |q:i|)))))")
+			p.assume(eq(sel(na, oldLen), a[2].S))
+			e.heapSet(p, key, srt, store(h, arr, na))
+		}
+		x.checkNonNil(p, a[0].S, "header map")
+		e.mapStore(p, mt, a[0].S, k, Val{K: KSlice, T: st, S: arr, Off: "0", Len: "(+ " + oldLen + " 1)"})
+		return nil, true
+	}}
+	models["(net/http.Header).Del"] = &model{fn: func(x *Exec, p *Path, site ssa.Instruction, cc *ssa.CallCommon, a []Val) ([]Val, bool) {
+		x.e.mapDelete(p, hdrType(cc), a[0].S, canon(x, a[1].S))
+		return nil, true
+	}}
+	models["(net/http.Header).Get"] = &model{silent: true, fn: func(x *Exec, p *Path, site ssa.Instruction, cc *ssa.CallCommon, a []Val) ([]Val, bool) {
+		e := x.e
+		mt := hdrType(cc)
+		et := mt.Underlying().(*types.Map).Elem().Underlying().(*types.Slice).Elem()
+		v, dom := e.mapLoad(p, nil, mt, a[0].S, canon(x, a[1].S))
+		first := e.loadElem(p, nil, v.S, v.Off, et)
+		empty := zeroOfSort(e.strSort())
+		return []Val{scalar(cc.Signature().Results().At(0).Type(), ite(and(not(eq(a[0].S, "0")), dom, "(> "+v.Len+" 0)"), first.S, empty))}, true
+	}}
 	models["math.IsNaN"] = pure(func(x *Exec, p *Path, cc *ssa.CallCommon, a []Val) []Val {
 		x.e.note("float64 modelled as real: NaN does not occur")
 		return []Val{scalar(rt(cc, 0), "false")}
@@ -151,7 +204,7 @@ func (x *Exec) isPureExternal(f *ssa.Function) bool {
 		return false
 	}
 	switch f.String() {
-	case "(*net/http.Request).Cookie", "(*net/http.Request).Cookies", "(*net/http.Request).Context", "(net/http.Header).Get", "(net/http.Header).Values":
+	case "(*net/http.Request).Cookie", "(*net/http.Request).Cookies", "(*net/http.Request).Context", "(net/http.Header).Values":
 		x.e.note("pure external function " + f.String() + ": result unconstrained")
 		return true
 	}
